@@ -13,8 +13,10 @@ Ties
  (N) leaves: sampled leaf calls (value before, arguments, value after) are compared with the real-valued
      model of the leaf by the `interval` tactic to 1e-9.
 Direct oracle: observable output (vertices, arc third points, spline lists, lengths, axes) of the transformed
-entity against the affine image of the output of the untransformed entity; copy independence; geometry
-labels defined; helper arguments unmodified.
+entity against the affine image of the output of the untransformed entity; a transformation list against the
+sequence of method calls on the same entity (fix C09-9: entity.transform([...]) is the method calls, own overrides
+of Angle / CircleCurve / SplineRound included; only an operation mirrored through a list is not inverted); copy
+independence; geometry labels defined; helper arguments unmodified.
 """
 import json
 import math
@@ -507,6 +509,24 @@ STACK_CLASSES = ["stack:" + s for s in STACKS]
 ASSEMBLY_CLASSES = ["assembly:" + s for s in ASSEMBLIES]
 ALL_CLASSES = LEAF_CLASSES + EDGE_CLASSES + CURVE_CLASSES + FACE_CLASSES + OP_CLASSES + SKETCH_CLASSES + SHAPE_CLASSES + \
     STACK_CLASSES + ASSEMBLY_CLASSES
+
+
+# transformation lists on entities that handle a transformation themselves (always generated, on every run, in the
+# traversal correspondence and in the direct oracle): a list must be the sequence of method calls on the entity -
+# bare Angle edge data (Angle.translate/rotate/scale/mirror), bare CircleCurve (CircleCurve.mirror), spline-round
+# sketches (SplineRound.scale / QuarterSplineRing.scale), the leaves (own default origin); an operation mirrored
+# through a list (mirrored, not inverted) and operations inside a shape / stack (mirrored and inverted)
+FORCED_LIST_CASES = (
+    [("edgedata:angle", [k]) for k in ("translate", "rotate", "scale", "mirror")] +
+    [("edgedata:angle", ["rotate", "translate", "mirror"]), ("edgedata:angle", ["scale", "translate"]),
+     ("edgeitem:angle", ["mirror", "translate"]),
+     ("curve:circle", ["mirror"]), ("curve:circle", ["mirror", "rotate"]), ("curve:circle", ["translate", "mirror", "scale"]),
+     ("edgedata:curve:circle", ["mirror"]), ("edgeitem:curve:circle", ["mirror"])] +
+    [("sketch:" + c, ["scale"]) for c in SKETCHES if "Spline" in c] +
+    [("sketch:QuarterSplineDisk", ["translate", "scale"]), ("sketch:SplineRing", ["scale", "rotate"]),
+     ("point", ["rotate"]), ("point", ["scale"]), ("array", ["rotate"]), ("array", ["scale", "mirror"]),
+     ("loft", ["mirror"]), ("loft:angle", ["mirror", "translate"]), ("loft:spline", ["rotate", "mirror"]), ("box", ["mirror"]),
+     ("shape:Cylinder", ["mirror"]), ("shape:RevolvedRing", ["mirror", "rotate"]), ("stack:ExtrudedStack", ["mirror"])])
 
 
 # ------------------------------------------------------------------------------------------------
@@ -1349,7 +1369,8 @@ class C09(Prop):
         "numpy element-wise arithmetic modelled as real arithmetic (agreement checked to 1e-9 by `interval`)",
         "heap-graph extraction: Point/Array/Angle/Operation are recognised by isinstance, every other ElementBase through `parts`; "
         "leaf calls are observed by wrapping Point.* and Array.* (writes that bypass these methods - CircleCurve.mirror's flip of `atop`, "
-        "the row reversal of Spline.reverse - are invisible to the call log and covered by the direct oracle only)",
+        "the row reversal of Spline.reverse, the scalar sides/widths scaled by SplineRound.scale - are invisible to the call log and "
+        "covered by the direct oracle only, for method calls and for transformation lists alike)",
         "tabulation: class graphs and helper write-sets are measured on one live object / call per class and container form",
         "traversal and leaf correspondences are sampled (random entities and transformations), not exhaustive",
         "not modelled, compared by the direct oracle only: `origin` arcs with a non-equidistant centre (adjust branch), interpolated "
@@ -1379,7 +1400,10 @@ class C09(Prop):
                     "(object, given/zero-origin/negation) and heap graph afterwards against Model.run_kinds, by vm_compute; "
                     "(N) sampled leaf calls: value after the call against the real-valued leaf model, by interval (1e-9); "
                     "non-trivial = at least one leaf call; distinct by (spec, transformation list, mode). "
-                    "Oracle cases additionally use None and zero origins.")
+                    "A list is modelled as the sequence of method calls on the entity itself (list_visits = method_visits; a "
+                    "top-level operation is mirrored but not inverted); lists on bare Angle edge data, bare CircleCurve (Mirror), "
+                    "spline-round sketches (Scaling), leaves and operations are generated on every run. "
+                    "Oracle cases additionally use None and zero origins and compare every list case with the method calls.")
         if getattr(self, "_unknown_overrides", None):
             res.notes.append("classes overriding a transformation method that the model does not special-case "
                              "(behaviour still compared through the call log): %s" % ", ".join(self._unknown_overrides))
@@ -1391,13 +1415,23 @@ class C09(Prop):
         # (U) traversal cases
         trav = []
         leaf_pool = []
-        for i in range(n_trav):
-            cl = classes[i % len(classes)] if i < 2 * len(classes) else rng.choice(classes)
-            spec = gen_entity_spec(rng, cl)
-            tl = [gen_tf_explicit(rng) for _ in range(rng.choice([1, 1, 2, 3]))]
-            if i < len(classes):
-                tl = [gen_tf_explicit(rng, "mirror")] + tl[:1]
-            mode = "method" if (i % 2 == 0) else "list"
+        forced = [f for f in FORCED_LIST_CASES if f[0] in classes]
+        if len(forced) < 20 or not any("Spline" in f[0] for f in forced):
+            raise GenError("the catalogue lost the entities with own transformation overrides (%d forced list cases)" % len(forced))
+        for i in range(-len(forced), n_trav):
+            if i < 0:
+                cl, kinds = forced[i + len(forced)]
+                spec = gen_entity_spec(rng, cl)
+                tl = [gen_tf_explicit(rng, k) for k in kinds]
+                mode = "list"
+                res.count("forced-list:" + cl)
+            else:
+                cl = classes[i % len(classes)] if i < 2 * len(classes) else rng.choice(classes)
+                spec = gen_entity_spec(rng, cl)
+                tl = [gen_tf_explicit(rng) for _ in range(rng.choice([1, 1, 2, 3]))]
+                if i < len(classes):
+                    tl = [gen_tf_explicit(rng, "mirror")] + tl[:1]
+                mode = "method" if (i % 2 == 0) else "list"
             try:
                 t0, codes, t1, events, _g = run_traversal_case(spec, tl, mode)
             except GenError:
@@ -1499,12 +1533,19 @@ class C09(Prop):
                                        after=[float(x) for x in _np().ravel(ev["after"])], op=ev["code"]))
         # direct oracle: transformation cases with all kinds of origins, copy cases, tables
         jobs = []
-        for i in range(n_oracle):
-            cl = classes[i % len(classes)] if i < 2 * len(classes) else rng.choice(classes)
-            spec = gen_entity_spec(rng, cl)
-            case = dict(kind="transform", klass=cl, spec=spec, tlist=gen_tlist(rng), mode=rng.choice(["method", "list"]))
-            if i < len(classes):
-                case["tlist"] = [gen_tf(rng, "mirror")]
+        for i in range(-len(forced), n_oracle):
+            if i < 0:
+                cl, kinds = forced[i + len(forced)]
+                # default (None) origins wherever the transformation has one for every second forced case
+                case = dict(kind="transform", klass=cl, spec=gen_entity_spec(rng, cl), mode="list",
+                            tlist=[gen_tf(rng, k, none_origin_p=(0.5 if i % 2 else 0.0)) for k in kinds])
+                res.count("oracle-forced-list:" + cl)
+            else:
+                cl = classes[i % len(classes)] if i < 2 * len(classes) else rng.choice(classes)
+                spec = gen_entity_spec(rng, cl)
+                case = dict(kind="transform", klass=cl, spec=spec, tlist=gen_tlist(rng), mode=rng.choice(["method", "list"]))
+                if i < len(classes):
+                    case["tlist"] = [gen_tf(rng, "mirror")]
             jobs.append(("transform", case))
             res.evaluations += 1
             res.count("oracle:" + cl.split(":")[0])
@@ -1595,6 +1636,9 @@ class C09(Prop):
             # entity.transform([...]) is not the sequence of method calls on that entity (before fix C09-9 the calls
             # went to the parts: Angle.*, CircleCurve.mirror, SplineRound.scale and the leaves' default origin bypassed)
             return "C09:transform-list:not-the-method-calls:%s" % klass
+        if kind == "transform" and "scale" in kinds and why == "scalar-length" and klass.endswith("SplineRing"):
+            # QuarterSplineRing.scale scales side_1/side_2 and then calls SplineRound.scale, which scales them again
+            return "C09:scale:spline-ring-sides-scaled-twice"
         if kind == "transform" and "mirror" in kinds and why == "edge-shape" and "direction reversed" in full:
             # Operation.mirror swaps the faces (invert) but leaves the side edges running the old way
             return "C09:mirror:operation-side-edge-not-reversed"
